@@ -37,6 +37,17 @@ static int ftc; uint64_t vf_ftell_script(void) { ftc++; return ftc <= 3 ? 100 : 
 #endif
 #define PI 3.14159265358979323846
 #define LIM (1 << 20)
+/* TEXT record with the modal variables of the specification: a CELL record leaves text-x / text-y at 0 (absolute mode) and text string, layer and type undefined */
+static int m_def; static uint64_t m_num, m_l, m_t; static int64_t m_x, m_y;
+static void dec_cell(void) { m_def = 0; m_x = 0; m_y = 0; }
+static void dec_text(uint64_t* num, uint64_t* l, uint64_t* t, int64_t* x, int64_t* y) {
+  uint8_t rec = nx_byte(), info = nx_byte(); if (rec != 19 || (info & 0x84)) { bad = 1; return; }             /* no repetition */
+  if (info & 0x40) { if (!(info & 0x20)) { bad = 1; return; } m_num = nx_uint(); m_def |= 1; } else if (!(m_def & 1)) bad = 1;      /* gdstk writes text by reference number */
+  if (info & 0x01) { m_l = nx_uint(); m_def |= 2; } else if (!(m_def & 2)) bad = 1;
+  if (info & 0x02) { m_t = nx_uint(); m_def |= 4; } else if (!(m_def & 4)) bad = 1;
+  if (info & 0x10) m_x = nx_int();
+  if (info & 0x08) m_y = nx_int();
+  *num = m_num; *l = m_l; *t = m_t; *x = m_x; *y = m_y; }
 int main(void) {
 #ifdef __CPROVER__
   uint64_t Hloc[256]; Hh = Hloc;
@@ -55,6 +66,11 @@ int main(void) {
   static const double ROTS[5] = {0.0, 0.5 * PI, PI, -0.5 * PI, 0.3};
   ref.f3 = ROTS[ROTK];
   Label lab = {0}; lab.f0 = TAG(ll, lt); lab.f1 = txt; VXD(lab.f2) = (double)lx; VYD(lab.f2) = (double)ly; lab.f5 = 1.0;
+#if LAB2      /* a second label, in the other cell: position modal variables do not survive a CELL record */
+  int64_t lx2 = nd_bool() ? lx : nd_range(-LIM, LIM), ly2 = nd_bool() ? ly : nd_range(-LIM, LIM); uint32_t ll2 = nd_u32(), lt2 = nd_u32();      /* coordinates shared with the first label get their own weight */
+  Label lab2 = {0}; lab2.f0 = TAG(ll2, lt2); lab2.f1 = txt; VXD(lab2.f2) = (double)lx2; VYD(lab2.f2) = (double)ly2; lab2.f5 = 1.0;
+  Label* lb[1] = {&lab2}; D.f5.f0 = 1; D.f5.f1 = 1; D.f5.f2 = (void*)lb;
+#endif
   Cell A = {0}; A.f0 = nA; Ref* ra[1] = {&ref}; A.f2.f0 = 1; A.f2.f1 = 1; A.f2.f2 = (void*)ra; Label* la[1] = {&lab}; A.f5.f0 = 1; A.f5.f1 = 1; A.f5.f2 = (void*)la;
   int ncell = (TGT == 0 || TGT == 2) ? 2 : 1; Cell* ca[2] = {&A, &D};
   Lib lib = {0}; lib.f0 = nL; lib.f1 = 1e-6; lib.f2 = 1e-6; lib.f3.f0 = ncell; lib.f3.f1 = ncell; lib.f3.f2 = (void*)ca;
@@ -69,16 +85,20 @@ int main(void) {
   uint8_t cname[2] = {0, 0}; int ncn = 0;                    /* CELLNAME table, filled below */
   uint8_t pl_byname = 0, pl_name = 0; uint64_t pl_num = 0; uint8_t pl_info = 0, pl_rec = 0; double pl_mag = 1.0, pl_ang = 0.0; int64_t px = 0, py = 0;
   uint64_t tx_num = 0, tl = 0, tt = 0; int64_t tx = 0, ty = 0; uint8_t tstr = 0; uint64_t tstr_num = 99;
+  uint64_t tx_num2 = 0, tl2 = 0, tt2 = 0; int64_t tx2 = 0, ty2 = 0;
   for (int c = 0; c < 2; c++) if (c < ncell) {
-    CHECK(nx_byte() == 13 && nx_uint() == (uint64_t)c, "CELL record by reference number, numbered in library order");
+    CHECK(nx_byte() == 13 && nx_uint() == (uint64_t)c, "CELL record by reference number, numbered in library order"); dec_cell();
     if (c == 0) {
       pl_rec = nx_byte(); pl_info = nx_byte(); CHECK(pl_rec == 17 || pl_rec == 18, "a PLACEMENT record");
       CHECK((pl_info & 0x80) && (pl_info & 0x30) == 0x30 && !(pl_info & 0x08), "cell explicit, x and y explicit, no repetition");
       if (pl_info & 0x40) pl_num = nx_uint(); else { pl_byname = 1; CHECK(nx_uint() == 1, "inline cell name: one character"); pl_name = nx_byte(); }
       if (pl_rec == 18) { if (pl_info & 0x04) pl_mag = nx_real(); if (pl_info & 0x02) pl_ang = nx_real(); }
       px = nx_int(); py = nx_int();
-      CHECK(nx_byte() == 19 && nx_byte() == 0x7B, "TEXT record: text by reference number, layer, type, x, y explicit");
-      tx_num = nx_uint(); tl = nx_uint(); tt = nx_uint(); tx = nx_int(); ty = nx_int(); } }
+      dec_text(&tx_num, &tl, &tt, &tx, &ty); }
+#if LAB2
+    else { dec_text(&tx_num2, &tl2, &tt2, &tx2, &ty2); }
+#endif
+  }
   for (int c = 0; c < 2; c++) if (c < ncell) { CHECK(nx_byte() == 3 && nx_uint() == 1, "CELLNAME record (implicit numbering), one character"); cname[ncn++] = nx_byte(); }
   CHECK(nx_byte() == 6 && nx_uint() == 1, "TEXTSTRING record with explicit number"); tstr = nx_byte(); tstr_num = nx_uint();
   CHECK(nx_byte() == 2, "END record");
@@ -103,6 +123,9 @@ int main(void) {
     else { CHECK(bc_f_i64(pl_mag) == (int64_t)mbits || (!(pl_info & 0x04) && mbits == 0x3ff0000000000000ULL), "magnification as saved (absent: 1)"); CHECK(pl_ang == want_deg || (!(pl_info & 0x02) && ROTS[ROTK] == 0.0), "angle in degrees as saved (absent: 0)"); } }
   CHECK(tstr == 't' && tstr_num == tx_num, "label text through the TEXTSTRING table");
   CHECK(tl == ll && tt == lt && tx == lx && ty == ly, "label layer, type and position");
+#if LAB2
+  CHECK(tstr_num == tx_num2 && tl2 == ll2 && tt2 == lt2 && tx2 == lx2 && ty2 == ly2, "the label of the second cell: text, layer, type and position (a strict decoder starts every cell with text position 0 and no text string / layer / type)");
+#endif
   WITNESS_POINT();
   return 0;
 }
